@@ -39,6 +39,12 @@ def QuiescentWFNodeFirst (s0 : St) (programs : List (List Op)) : Prop :=
   ∀ sched, allFinished (runSchedWith Op.progNodeFirst programs sched s0).1 = true →
     WF (runSchedWith Op.progNodeFirst programs sched s0).2.kv
 
+/-- the same statement about a `batch_create_edges` whose list appends are not under the list lock
+    (`Op.progBatchWithoutStripeLock`) -/
+def QuiescentWFBatchWithoutStripeLock (s0 : St) (programs : List (List Op)) : Prop :=
+  ∀ sched, allFinished (runSchedWith Op.progBatchWithoutStripeLock programs sched s0).1 = true →
+    WF (runSchedWith Op.progBatchWithoutStripeLock programs sched s0).2.kv
+
 /-! ### generic graph-level lemmas (in terms of the four views of a store) -/
 
 theorem wf_add_edge {m m' : KV} {eid a b : Nat} {d : Bool} {ty v : Nat}
